@@ -501,6 +501,82 @@ def release_case(draw, op):
     return c
 
 
+# ---- no API path may make a non-floating tensor require grad: Module.freeze/unfreeze over mixed-dtype parameters ----
+@st.composite
+def freeze_cases(draw):
+    return {"dtypes": draw(st.lists(st.sampled_from(["float32", "float64", "float16", "int64", "int32", "bool", "complex64", "uint8"]),
+                                    min_size=1, max_size=4)),
+            "calls": draw(st.lists(st.sampled_from(["freeze", "unfreeze", "unfreeze", "zero_grad"]), min_size=1, max_size=4)),
+            "nested": draw(st.booleans())}
+
+
+def check_freeze(c, rec):
+    env.reset_global_modes()
+    nn = sg.nn
+    ps = []
+    for d in c["dtypes"]:
+        dt = np.dtype(d)
+        ps.append(nn.Parameter(Tensor(np.ones((2,), dtype=dt), requires_grad=False)))
+
+    class Holder(nn.Module):
+        def __init__(self, params):
+            super().__init__()
+            for i, p in enumerate(params):
+                setattr(self, f"p{i}", p)
+
+    inner = Holder(ps)
+    m = inner
+    if c["nested"]:
+        m = nn.Sequential(inner)
+    rec.nontrivial(any(np.dtype(d).kind != "f" for d in c["dtypes"]) and "unfreeze" in c["calls"])
+    for call in c["calls"]:
+        try:
+            getattr(m, call)()
+        except RuntimeError:
+            pass          # refusing (the flag setter refuses non-floating tensors) is fine
+        for p, d in zip(ps, c["dtypes"]):
+            if p.requires_grad and np.dtype(d).kind != "f":
+                raise Violation("nonfloat_requires_grad", f"after Module.{call}() a {d} parameter requires grad; dtypes={c['dtypes']} calls={c['calls']}")
+
+
+@st.composite
+def loss_flag_cases(draw):
+    return {"loss": draw(st.sampled_from(["mse_loss", "binary_cross_entropy", "binary_cross_entropy_with_logits", "MSELoss", "BCELoss",
+                                          "BCEWithLogitsLoss"])),
+            "rg": [draw(st.booleans()), draw(st.booleans())], "no_grad": draw(st.booleans()),
+            "reduction": draw(st.sampled_from(["mean", "sum", "none"]))}
+
+
+def check_loss_flags(c, rec):
+    env.reset_global_modes()
+    rec.nontrivial(c["rg"] == [False, True])
+    pred = Tensor(np.array([0.25, 0.5, 0.75]), requires_grad=c["rg"][0])
+    tgt = Tensor(np.array([0.0, 1.0, 0.5]), requires_grad=c["rg"][1])
+
+    def run():
+        if c["loss"][0].isupper():
+            return getattr(sg.nn, c["loss"])(reduction=c["reduction"])(pred, tgt)
+        return getattr(sg.nn.functional, c["loss"])(pred, tgt)
+    if c["no_grad"]:
+        with sg.no_grad():
+            out = run()
+    else:
+        out = run()
+    want = (not c["no_grad"]) and any(c["rg"])
+    ctx = f"{c}"
+    if out.requires_grad != want or (out.grad_fn is not None) != want:
+        raise Violation("result_flag", f"{c['loss']}: result requires_grad={out.requires_grad} grad_fn={'set' if out.grad_fn else 'None'}, "
+                                       f"expected {want} (operands require grad: prediction {c['rg'][0]}, target {c['rg'][1]}); {ctx}")
+    try:
+        out.backward(Tensor(np.ones(out.shape)))
+        accepted = True
+    except RuntimeError:
+        accepted = False
+    if accepted != want:
+        raise Violation("backward_accepted" if accepted else "backward_rejected", f"{c['loss']}: backward() "
+                        f"{'accepted' if accepted else 'refused'} although the result should{'' if want else ' not'} require grad; {ctx}")
+
+
 @st.composite
 def flag_case(draw, op):
     from .. import ops as _ops
@@ -518,6 +594,8 @@ def subchecks():
         subs.append(SubCheck("flag_t_" + op.name, make_flag_check(op), (lambda op=op: flag_case(op)), quick=120, thorough=1500))
     for op in nnops.OPS + [nnops.DROPOUT]:
         subs.append(SubCheck("flag_nn_" + op.name, make_flag_check(op), (lambda op=op: flag_case(op)), quick=100, thorough=1000))
+    subs.append(SubCheck("module_freeze_unfreeze", check_freeze, freeze_cases, quick=200, thorough=2000))
+    subs.append(SubCheck("flag_two_tensor_losses", check_loss_flags, loss_flag_cases, quick=200, thorough=2000))
     for op in _ops.OPS:
         subs.append(SubCheck("release_t_" + op.name, make_release_check(op), (lambda op=op: release_case(op)), quick=60, thorough=800))
     for op in nnops.OPS:
